@@ -154,6 +154,9 @@ func (E *Engine) callFn(m *Machine, f *Frame, x *ssa.Call, fn *ssa.Function, bin
 			f.Env[x] = E.applyContract(m, f, x, fn, c, args)
 			return false
 		}
+		if c := E.Specs.Contracts[name]; c != nil && !c.Modular && !c.Trusted {
+			E.checkDemands(m, f, fn, c, args)
+		}
 		if fn.Blocks == nil {
 			panic(unsupported("module function without body: " + full))
 		}
